@@ -274,6 +274,52 @@ class Sdk:
             return {"ok": {"log": log, "accept_ret": r1 is None, "transform_ret": list(r3) if isinstance(r3, tuple) else repr(r3),
                            "transform_ctx_ret": list(r4) if isinstance(r4, tuple) else repr(r4),
                            "pass_through": seen, "with_default": td}}
+        if kind == "dispatch_matrix":
+            # For every concrete class D: a visitor / visitor with context / transformer (with and
+            # without context) that overrides exactly the method of D; which of the objects
+            # (given by harness ids, the instance in pre-order) reach the overridden method.
+            root = self.objects[op["ids"][0]]
+            objs = [self.objects[i] for i in op["ids"]]
+            out = {}
+            for c in self.lite["classes"]:
+                if c["abstract"]:
+                    continue
+                fn = c["fn"]
+                hits, hits_ctx, ctx_ok = [], [], [True]
+
+                def visit_d(self_, that, _hits=hits, _fn=fn):
+                    _hits.append(self.ids.get(id(that), -1))
+                    getattr(T.PassThroughVisitor, "visit_" + _fn)(self_, that)
+
+                def visit_d_ctx(self_, that, context, _hits=hits_ctx, _fn=fn, _ok=ctx_ok):
+                    _hits.append(self.ids.get(id(that), -1))
+                    if context != "ctx":
+                        _ok[0] = False
+                    getattr(T.PassThroughVisitorWithContext, "visit_" + _fn + "_with_context")(self_, that, context)
+
+                V = type("V", (T.PassThroughVisitor,), {"visit_" + fn: visit_d})
+                VC = type("VC", (T.PassThroughVisitorWithContext,), {"visit_" + fn + "_with_context": visit_d_ctx})
+                V().visit(root)
+                VC().visit_with_context(root, "ctx")
+                TD = type("TD", (T.TransformerWithDefault,), {"transform_" + fn: lambda self_, that: "hit"})
+                TC = type("TC", (T.TransformerWithDefaultAndContext,),
+                          {"transform_" + fn + "_with_context": lambda self_, that, context: ("hit", context)})
+                t_hits = [self.ids.get(id(o), -1) for o in objs if o.transform(TD("dflt")) == "hit"]
+                tc_hits = [self.ids.get(id(o), -1) for o in objs
+                           if o.transform_with_context(TC("dflt"), "ctx") == ("hit", "ctx")]
+                t_other = [self.ids.get(id(o), -1) for o in objs if o.transform(TD("dflt")) not in ("hit", "dflt")]
+                # direct dispatch on the root only
+                direct, direct_ctx = [], []
+                V2 = type("V2", (T.PassThroughVisitor,), {"visit_" + fn: lambda self_, that, _d=direct: _d.append(1) if that is root else None})
+                VC2 = type("VC2", (T.PassThroughVisitorWithContext,),
+                           {"visit_" + fn + "_with_context":
+                            lambda self_, that, context, _d=direct_ctx: _d.append(1) if that is root else None})
+                root.accept(V2())
+                root.accept_with_context(VC2(), "ctx")
+                out[c["name"]] = {"visit": hits, "visit_ctx": hits_ctx, "ctx_ok": ctx_ok[0], "transform": t_hits,
+                                  "transform_ctx": tc_hits, "transform_other": t_other,
+                                  "accept_root": len(direct), "accept_root_ctx": len(direct_ctx)}
+            return {"ok": out}
         if kind == "accessors":
             obj = self.objects[op["id"]]
             c = self.by_pyclass[type(obj)]
